@@ -301,6 +301,17 @@ def run(ctx):
     R.check("C18.5", "TABLE", init, "every registered command has a handler method", okr, "registered commands %s vs handlers %s" % (regv, sorted(m for m in model.methods if m.startswith("handle_"))))
     qv = si.env.get("self._msg_queue")
     R.check("C18.5", "TABLE", init, "queue is a deque created empty in __init__", isinstance(qv, T) and "deque" in tm.show(qv), "queue is %s" % tm.show(qv)[:80])
+    # an unbounded queue: a deque with maxlen silently evicts the oldest entry on append once it is full
+    bounded = []
+    for n in ast.walk(mod.tree):
+        if isinstance(n, ast.Call) and (dotted_parts(n.func) or [""])[-1] == "deque":
+            ml = n.args[1] if len(n.args) > 1 else next((k.value for k in n.keywords if k.arg == "maxlen"), None)
+            if ml is not None and not (isinstance(ml, ast.Constant) and ml.value is None):
+                bounded.append(n)
+    R.check("C18.1", "OWN", init, "no bounded deque in the node module (append never evicts a queued message)", not bounded,
+            "a deque is created with maxlen=%s: once full, every append silently drops the oldest queued message" % (ast.unparse(bounded[0].args[1] if len(bounded[0].args) > 1 else
+                                                                                                                                   next(k.value for k in bounded[0].keywords if k.arg == "maxlen")) if bounded else ""),
+            line=bounded[0].lineno if bounded else None, example="more unhandled messages than the bound while no consumer drains the queue")
     # registry immutable after __init__ (whole module)
     muts = []
     for name, m in model.methods.items():
